@@ -382,6 +382,7 @@ func createMutations(batch bool, curK int) []mutation {
 			mutation{"rate", "zero", func(o *Op) { o.Rate = "0" }},
 			mutation{"rate", "negative", func(o *Op) { o.Rate = "-0.5" }},
 			mutation{"rate", "above-one", func(o *Op) { o.Rate = "2" }},
+			mutation{"rate", "zero-and-no-extension-round", func(o *Op) { o.Rate = "0"; o.MaxExt = 0 }},
 		)
 	}
 	return ms
